@@ -79,6 +79,7 @@ struct Config {
   std::vector<std::vector<long>> ia;
   bool excl;
   std::string boxtype;
+  double prior = 0;  // > 0: the search object has already been used with cutoff*prior (history), then Cleanup + setCutoff
 };
 
 static Config config_of(const json &c) {
@@ -88,6 +89,7 @@ static Config config_of(const json &c) {
   C.ntypes = c.at("ntypes");
   C.excl = c.at("excl");
   C.boxtype = c.at("type");
+  C.prior = c.value("prior", 0.0);
   for (auto &b : c.at("beads")) {
     std::array<double, 3> p;
     if (b.contains("rel")) {
@@ -280,6 +282,16 @@ static void check_pairs(Result &r, const std::string &K, const Config &C, const 
     if (!check_beadlist(r, l2, in2)) return;
   }
   NB nb;
+  if (C.prior > 0) {
+    // history: the same search object has produced a list for another cutoff before (csg tools construct a fresh
+    // object per search, library users need not); what it reports now must not depend on that
+    nb.setCutoff(C.cutoff * C.prior);
+    if (one_list)
+      nb.Generate(l1, C.excl);
+    else
+      nb.Generate(l1, l2, C.excl);
+    nb.Cleanup();
+  }
   nb.setCutoff(C.cutoff);
   PairCounter pc;
   pc.ret = ret;
@@ -369,6 +381,13 @@ static void check_triples(Result &r, const std::string &K, const Config &C, cons
     if (!check_beadlist(r, l3, in3)) return;
   }
   NB nb;
+  if (C.prior > 0) {
+    nb.setCutoff(C.cutoff * C.prior);
+    if (variant == 1) nb.Generate(l1, C.excl);
+    if (variant == 2) nb.Generate(l1, l2, C.excl);
+    if (variant == 3) nb.Generate(l1, l2, l3, C.excl);
+    nb.Cleanup();
+  }
   nb.setCutoff(C.cutoff);
   TripleCounter tc;
   tc.ret = ret;
@@ -648,6 +667,7 @@ static json gen_config(int maxbeads, int min_types, int rel_pct) {
   }
   c["ia"] = ia;
   c["excl"] = rbool(70);
+  c["prior"] = rbool(30) ? pick<double>({0.3, 0.45, 0.6, 0.8, 1.0}) : 0.0;
   c["sel1"] = rbool(60) ? -1 : ri(0, ntypes - 1);
   std::vector<int> tp = rperm(3);
   std::vector<int> used;
